@@ -28,7 +28,17 @@ pub fn parse_ignore(source: &Path, config: &Config) -> Result<Option<Gitignore>>
         let gifile = source.join(".gitignore");
         info!("Using .gitignore file {:?}", gifile);
         let mut builder = GitignoreBuilder::new(source);
-        builder.add(&gifile);
+        if let Some(err) = builder.add(&gifile) {
+            // No .gitignore means nothing to ignore, but failing to
+            // read an existing one must not silently disable the
+            // filter (invalid patterns are skipped, as git does).
+            let missing = err.io_error()
+                .map(|e| e.kind() == std::io::ErrorKind::NotFound)
+                .unwrap_or(false);
+            if err.is_io() && !missing {
+                return Err(err.into());
+            }
+        }
         let ignore = builder.build()?;
         Some(ignore)
     } else {
